@@ -788,6 +788,12 @@ func (d *badgerNodeDB) Close() {
 	})
 }
 
+// assignedPtr is an in-memory pointer that was assigned a database pointer by a batch.
+type assignedPtr struct {
+	ptr  *node.Pointer
+	prev node.DBPointer
+}
+
 type badgerBatch struct {
 	api.BaseBatch
 
@@ -809,6 +815,10 @@ type badgerBatch struct {
 	annotations  writelog.Annotations
 	updatedNodes []updatedNode
 	newRootValue []byte
+	// assignedPtrs are the in-memory pointers that have been assigned a database pointer by this
+	// batch, together with what they carried before. In case the batch is not committed these
+	// assignments need to be undone.
+	assignedPtrs []assignedPtr
 
 	mpLock *sync.Mutex
 }
@@ -895,6 +905,7 @@ func (ba *badgerBatch) Commit(root node.Root) error {
 		if err := ba.db.checkRootExists(tx, root); err == nil {
 			// No need to do anything since if the hash matches, everything will be identical and we
 			// would just be duplicating work.
+			ba.assignedPtrs = nil
 			ba.Reset()
 			return ba.BaseBatch.Commit(root)
 		}
@@ -956,6 +967,7 @@ func (ba *badgerBatch) Commit(root node.Root) error {
 		return fmt.Errorf("mkvs/pathbadger: failed to flush batch: %w", err)
 	}
 
+	ba.assignedPtrs = nil
 	ba.Reset()
 	return ba.BaseBatch.Commit(root)
 }
@@ -968,6 +980,14 @@ func (ba *badgerBatch) Reset() {
 	if ba.readTxn != nil {
 		ba.readTxn.Discard()
 	}
+
+	// In case the batch has not been committed, the database pointers that it has assigned must not
+	// survive it. The pointers stay dirty and the indices of the next batch are assigned from scratch,
+	// so they would collide with the stale ones.
+	for _, ap := range ba.assignedPtrs {
+		ap.ptr.DBInternal = ap.prev
+	}
+	ba.assignedPtrs = nil
 
 	ba.writeLog = nil
 	ba.annotations = nil
